@@ -152,6 +152,16 @@ where
         μ: T,
         _scaling_strategy: ScalingStrategy,
     ) -> bool {
+        // The barrier derivatives below exist only if ζ = Π(zᵢ/αᵢ)^{2αᵢ} - ‖w‖² > 0.
+        // The line search tests dual feasibility through an equivalent but
+        // differently rounded expression, so on degenerate problems ζ can come
+        // out nonpositive here: report a scaling failure instead of asserting.
+        let two: T = (2.).as_T();
+        let phi = zip(&self.α, z).fold(T::one(), |phi, (&αi, &zi)| phi * (zi / αi).powf(two * αi));
+        if !(phi - z[self.dim1()..].sumsq() > T::zero()) {
+            return false;
+        }
+
         // update both gradient and Hessian for function f*(z) at the point z
         self.update_dual_grad_H(z);
         self.data.μ = μ;
